@@ -72,7 +72,9 @@ func c16(p *model.Prog, r *report.Result) {
 	for _, n := range entryNames {
 		roots = append(roots, p.Method("pkg/logic", "Group", n))
 	}
-	reach := p.Reachable(roots, true, func(f *ssa.Function) bool { return isGroupMethod(f) || (f.Parent() != nil && isGroupMethod(f.Parent())) })
+	reach := p.Reachable(roots, true, func(f *ssa.Function) bool {
+		return isGroupMethod(f) || (f.Parent() != nil && isGroupMethod(f.Parent()))
+	})
 	type site struct {
 		fn  *ssa.Function
 		in  ssa.Instruction
